@@ -625,6 +625,8 @@ pub fn run(ctx: &Ctx) -> Report {
         Tier::Thorough => vec![(1, 1), (2, 1), (3, 1), (4, 1)],
     };
     for (n, step) in ns {
+        // n = 4 (thorough): every 8th function per BDD order, every 32nd per vtree (120 vtrees)
+        let step = if n == 4 { 8 } else { step };
         for o in permutations(n) {
             items.push((Rep::Bdd(o.clone()), n, step));
             if n <= 3 {
@@ -633,7 +635,7 @@ pub fn run(ctx: &Ctx) -> Report {
             }
         }
         for v in all_vtrees(n) {
-            items.push((Rep::Sdd(v), n, if n == 4 { 3 } else { step }));
+            items.push((Rep::Sdd(v), n, if n == 4 { 32 } else { step }));
         }
     }
     // longest first for a better parallel schedule
@@ -641,7 +643,7 @@ pub fn run(ctx: &Ctx) -> Report {
     let r = par_run(ctx, &items, |_, (rp, n, step)| run_rep(rp, *n, ctx, *step));
     rep.merge(r);
     rep.distinct_nontrivial = rep.transitions;
-    rep.bound("functions", json!(match ctx.tier { Tier::Quick => "all of F(1), F(2), F(3)", Tier::Thorough => "all of F(1..4) for BDDs, every 3rd of F(4) for the 120 SDD vtrees" }));
+    rep.bound("functions", json!(match ctx.tier { Tier::Quick => "all of F(1), F(2), F(3)", Tier::Thorough => "all of F(1..3); every 8th function of F(4) for the 24 BDD orders, every 32nd for the 120 SDD vtrees" }));
     rep.bound("semirings", json!(["RealSemiring", "FiniteField<7>", "FiniteField<U32_TINY>", "FiniteField<U64_LARGEST>", "FiniteField<U128_LARGE_1>", "BooleanSemiring", "ExpectedUtility", "Complex", "RationalSemiring(0/1 weights)", "Polynomial<RealSemiring>"]));
     rep.sample(json!({"rep": {"sdd_vtree": "((0 2) 1)"}, "function": "0x96", "semiring": "Polynomial<RealSemiring>", "weights": "x_i -> (1 - x, x)"}));
     rep.assumptions.push("weights are drawn from alphabets on which f64 arithmetic is exact; polynomial results are compared coefficient-wise (the len field is a representation detail)".into());
